@@ -278,6 +278,81 @@ def badCorners (pts : List V3) : List Nat := (List.range 8).filter (fun c => !(0
 
 def rightHanded (pts : List V3) : Bool := pts.length == 8 && (badCorners pts).isEmpty
 
+/-! ### vocabulary of the property statements (Props/C11) -/
+
+/-- blocking of the shape lofted from a sketch entry (`k` tiers) -/
+def loftOf (e : SketchEntry) (k : Nat) : Blocking := stackBlocks e.quads k
+
+/-- all a sketch class must satisfy: the three `chop(axis)` calls reach every axis, and no family is chopped twice -/
+def sketchChoppable (e : SketchEntry) : Bool :=
+  writeOk (loftOf e 1) (chopNodes e.chops) && separated (loftOf e 1) (chopNodes e.chops)
+
+def sketchNamed (name : String) (p : SketchEntry → Bool) : Bool :=
+  match findSketch name with
+  | some e => p e
+  | none => false
+
+/-- quad maps: four different points per quad, two quads share nothing, a point, or one edge which they
+    traverse in opposite directions (so one right-handed block makes all blocks right-handed), and every
+    point index is used (expected vertex count of a tier) -/
+def sketchConformal (e : SketchEntry) : Bool := quadsConformal e.quads && allPointsUsed e.quads
+
+def dispNodes (d : List (List (Nat × Nat))) : List Nat := d.flatten.map (fun p => 3 * p.1 + p.2)
+
+def findShape (name : String) : Option (String × List (List Nat) × List (List (Nat × Nat))) :=
+  CBV.Gen.c11Shapes.find? (fun s => s.1 == name)
+
+/-- lofting the quad map (in grid order) reproduces the blocking `Mesh.assemble` builds for the extruded
+    probe and for the stack of 2 tiers, and `Sketch.chops` evaluates to the operations the calls chop -/
+def sketchMatchesProbes (e : SketchEntry) : Bool :=
+  (match findShape ("Extruded" ++ e.1) with
+    | some s => decide (canon (loftOf e 1) = s.2.1) && decide (chopNodes e.chops = dispNodes s.2.2)
+    | none => false) &&
+  (match findShape ("Stack2" ++ e.1) with
+    | some s => decide (canon (loftOf e 2) = s.2.1) && decide (stackChopNodes e.chops e.quads.length 2 = dispNodes s.2.2)
+    | none => false)
+
+/-- every probe shape (round shapes, rings, hemisphere, joints, extruded sketches, stacks): the documented
+    chop calls reach every axis, and no wire family receives chops from two different calls -/
+def shapeChoppable (s : String × List (List Nat) × List (List (Nat × Nat))) : Bool :=
+  writeOk s.2.1 (dispNodes s.2.2) &&
+    callsSeparated s.2.1 (s.2.2.map (fun call => call.map (fun p => 3 * p.1 + p.2)))
+
+/-- the round probe shapes whose calls chop every family exactly once; the others (`Hemisphere`, the
+    joints) chop some family twice within one call, with the same arguments, on congruent blocks -/
+def onceShapes : List String :=
+  ["Cylinder", "SemiCylinder", "Frustum", "Elbow", "ExtrudedRing3", "ExtrudedRing4", "ExtrudedRing5",
+    "ExtrudedRing6", "ExtrudedRing8", "ExtrudedRing12", "RevolvedRing3", "RevolvedRing4", "RevolvedRing5",
+    "RevolvedRing6", "RevolvedRing8", "RevolvedRing12"]
+
+def shapeNamed (name : String) (p : String × List (List Nat) × List (List (Nat × Nat)) → Bool) : Bool :=
+  match findShape name with
+  | some s => p s
+  | none => false
+
+/-- the ring hand model `ringQuads` gives the blocking of the `ExtrudedRing` probes, and `ringChopNodes`
+    their chop dispatch (a test of the hand model against the source, for the sizes in the table) -/
+def ringMatchesProbe (n : Nat) : Bool :=
+  match findShape ("ExtrudedRing" ++ toString n) with
+  | some s => decide (canon (stackBlocks (ringQuads n) 1) = s.2.1) && decide (ringChopNodes n = dispNodes s.2.2)
+  | none => false
+
+/-- image of a vector under the linear map with rows `r1 r2 r3` -/
+def lin (r1 r2 r3 v : V3) : V3 := ⟨V3.dot r1 v, V3.dot r2 v, V3.dot r3 v⟩
+
+/-- affine placement `v ↦ M v + t` -/
+def place (r1 r2 r3 t v : V3) : V3 := lin r1 r2 r3 v + t
+
+/-- determinant of the matrix with rows `r1 r2 r3` -/
+def det3 (r1 r2 r3 : V3) : Rat := triple r1 r2 r3
+
+/-- rows of the (unnormalised) rotation matrix of a quaternion `(w, x, y, z)`, times a scale `s` -/
+def quatRows (w x y z s : Rat) : V3 × V3 × V3 :=
+  (⟨s * (w * w + x * x - y * y - z * z), s * (2 * (x * y - w * z)), s * (2 * (x * z + w * y))⟩,
+   ⟨s * (2 * (x * y + w * z)), s * (w * w - x * x + y * y - z * z), s * (2 * (y * z - w * x))⟩,
+   ⟨s * (2 * (x * z - w * y)), s * (2 * (y * z + w * x)), s * (w * w - x * x - y * y + z * z)⟩)
+
+
 /-! ### line protocol -/
 
 def chunk8 : List Nat → Option Blocking
